@@ -4,10 +4,14 @@ import (
 	"bufio"
 	"context"
 	"crypto/tls"
+	"errors"
 	"fmt"
+	"io"
 	"net"
 	"strconv"
+	"strings"
 	"sync"
+	"sync/atomic"
 	"time"
 
 	"github.com/pion/rtp"
@@ -25,6 +29,7 @@ import (
 
 type rawConn struct {
 	nc      net.Conn
+	br      *bufio.Reader
 	c       *conn.Conn
 	wmu     sync.Mutex
 	cseq    int
@@ -38,10 +43,19 @@ func dialRaw(addr string, dial func(ctx context.Context, network, address string
 	if err != nil {
 		return nil, err
 	}
-	return &rawConn{nc: nc, c: conn.NewConn(bufio.NewReader(nc), nc)}, nil
+	br := bufio.NewReaderSize(nc, 1<<16)
+	return &rawConn{nc: nc, br: br, c: conn.NewConn(br, nc)}, nil
 }
 
 func (p *rawConn) write(req *base.Request) error {
+	_, err := p.writeSeq(req, nil)
+	return err
+}
+
+// writeSeq sends a request and returns its CSeq; note (if given) is told the CSeq before the bytes leave.
+func (p *rawConn) writeSeq(req *base.Request, note func(cseq int)) (int, error) {
+	p.wmu.Lock()
+	defer p.wmu.Unlock()
 	p.cseq++
 	if req.Header == nil {
 		req.Header = base.Header{}
@@ -50,10 +64,11 @@ func (p *rawConn) write(req *base.Request) error {
 	if p.session != "" {
 		req.Header["Session"] = base.HeaderValue{p.session}
 	}
-	p.wmu.Lock()
-	defer p.wmu.Unlock()
+	if note != nil {
+		note(p.cseq)
+	}
 	p.nc.SetWriteDeadline(time.Now().Add(20 * time.Second)) //nolint:errcheck
-	return p.c.WriteRequest(req)
+	return p.cseq, p.c.WriteRequest(req)
 }
 
 // do sends a request and reads until its response (only used while no frames flow).
@@ -122,6 +137,15 @@ type rawReader struct {
 	done   chan struct{}
 	resp   chan *base.Response // responses read by the loop while frames flow
 	nPlay  int
+
+	// keepalives: OPTIONS / GET_PARAMETER fired at a high rate while the stream flows; their responses
+	// share the connection with the interleaved frames of the session's writer goroutine
+	kaSeq   sync.Map // CSeq of the keepalives in flight
+	kaStop  chan struct{}
+	kaDone  chan struct{}
+	kaSent  atomic.Int64
+	kaAnsw  atomic.Int64
+	closing atomic.Bool
 }
 
 // request sends a request; once the read loop runs, the response comes through it (frames that
@@ -130,19 +154,52 @@ func (rr *rawReader) request(req *base.Request) (*base.Response, error) {
 	if rr.done == nil {
 		return rr.p.do(req)
 	}
-	if err := rr.p.write(req); err != nil {
+	cseq, err := rr.p.writeSeq(req, nil)
+	if err != nil {
 		return nil, err
 	}
-	select {
-	case res := <-rr.resp:
-		if res.StatusCode != base.StatusOK {
-			return res, fmt.Errorf("%s: status %d %s", req.Method, res.StatusCode, res.StatusMessage)
+	deadline := time.After(20 * time.Second)
+	for {
+		select {
+		case res := <-rr.resp:
+			if v, ok := res.Header["CSeq"]; !ok || len(v) != 1 || v[0] != strconv.Itoa(cseq) {
+				continue
+			}
+			if res.StatusCode != base.StatusOK {
+				return res, fmt.Errorf("%s: status %d %s", req.Method, res.StatusCode, res.StatusMessage)
+			}
+			return res, nil
+		case <-rr.done:
+			return nil, fmt.Errorf("%s: connection closed", req.Method)
+		case <-deadline:
+			return nil, fmt.Errorf("%s: no response", req.Method)
 		}
-		return res, nil
-	case <-rr.done:
-		return nil, fmt.Errorf("%s: connection closed", req.Method)
-	case <-time.After(20 * time.Second):
-		return nil, fmt.Errorf("%s: no response", req.Method)
+	}
+}
+
+// keepalive fires requests until stopped.
+func (rr *rawReader) keepalive(every time.Duration) {
+	defer close(rr.kaDone)
+	u, err := base.ParseURL(fmt.Sprintf("rtsp://%s/s?r=%d", rr.rd.h.addr, rr.rd.idx))
+	if err != nil {
+		return
+	}
+	for i := 0; ; i++ {
+		select {
+		case <-rr.kaStop:
+			return
+		case <-rr.done:
+			return
+		case <-time.After(every):
+		}
+		m := base.Options
+		if i%2 == 1 {
+			m = base.GetParameter
+		}
+		if _, err = rr.p.writeSeq(&base.Request{Method: m, URL: u}, func(cseq int) { rr.kaSeq.Store(cseq, true) }); err != nil {
+			return
+		}
+		rr.kaSent.Add(1)
 	}
 }
 
@@ -191,9 +248,14 @@ func (rr *rawReader) play() error {
 		return err
 	}
 	if rr.done == nil {
-		rr.resp = make(chan *base.Response, 8)
+		rr.resp = make(chan *base.Response, 64)
 		rr.done = make(chan struct{})
 		go rr.loop()
+		if us := rr.rd.spec.KeepaliveUs; us > 0 {
+			rr.kaStop = make(chan struct{})
+			rr.kaDone = make(chan struct{})
+			go rr.keepalive(time.Duration(us) * time.Microsecond)
+		}
 	}
 	return nil
 }
@@ -207,35 +269,73 @@ func (rr *rawReader) pause() error {
 	return err
 }
 
-// loop: what a client's reader does - interleaved channel → media, payload type → format.
+// loop: what a client's reader does - interleaved channel → media, payload type → format - but strict:
+// every byte on the connection must belong to a well-formed interleaved frame or a well-formed response
+// (pkg/conn's Read skips bytes it does not recognise; a corrupted stream would go unnoticed).
 func (rr *rawReader) loop() {
 	defer close(rr.done)
 	h := rr.rd.h
-	for {
-		what, err := rr.p.c.Read()
+	br := rr.p.br
+	corrupt := func(f string, a ...any) {
+		if rr.closing.Load() {
+			return // our own close cut a message short
+		}
+		rr.rd.mu.Lock()
+		rr.rd.decodeErrs = append(rr.rd.decodeErrs, "byte stream corrupt: "+fmt.Sprintf(f, a...))
+		rr.rd.mu.Unlock()
+	}
+	for n := 0; ; n++ {
+		b, err := br.Peek(1)
 		if err != nil {
 			return
 		}
-		if res, isRes := what.(*base.Response); isRes {
+		switch {
+		case b[0] == base.InterleavedFrameMagicByte:
+		case b[0] == 'R':
+			var res base.Response
+			if err = res.Unmarshal(br); err != nil {
+				if !isClosed(err) {
+					corrupt("after %d messages: response does not parse: %v", n, err)
+				}
+				return
+			}
+			if v, ok := res.Header["CSeq"]; ok && len(v) == 1 {
+				if cs, cerr := strconv.Atoi(v[0]); cerr == nil {
+					if _, ka := rr.kaSeq.LoadAndDelete(cs); ka {
+						rr.kaAnsw.Add(1)
+						if res.StatusCode != base.StatusOK {
+							corrupt("keepalive answered with status %d", res.StatusCode)
+						}
+						continue
+					}
+				}
+			}
 			select {
-			case rr.resp <- res:
+			case rr.resp <- &res:
 			default:
 			}
 			continue
+		default:
+			corrupt("after %d messages: byte 0x%02x where a frame or a response must start", n, b[0])
+			return
 		}
-		fr, ok := what.(*base.InterleavedFrame)
-		if !ok {
-			continue
+		var fr base.InterleavedFrame
+		if err = fr.Unmarshal(br); err != nil {
+			if !isClosed(err) {
+				corrupt("after %d messages: frame does not parse: %v", n, err)
+			}
+			return
 		}
 		m, ok := rr.byChan[fr.Channel]
 		if !ok {
-			continue // RTCP channel, or a channel that was never announced
+			if _, rtcp := rr.byChan[fr.Channel-1]; !rtcp {
+				corrupt("after %d messages: frame on channel %d, which no SETUP response announced", n, fr.Channel)
+			}
+			continue
 		}
 		var pkt rtp.Packet
 		if pkt.Unmarshal(fr.Payload) != nil {
-			rr.rd.mu.Lock()
-			rr.rd.decodeErrs = append(rr.rd.decodeErrs, "raw reader: RTP unmarshal failed")
-			rr.rd.mu.Unlock()
+			corrupt("after %d messages: RTP packet of %d bytes does not parse", n, len(fr.Payload))
 			continue
 		}
 		known := false
@@ -245,13 +345,16 @@ func (rr *rawReader) loop() {
 			}
 		}
 		if !known {
-			rr.rd.mu.Lock()
-			rr.rd.decodeErrs = append(rr.rd.decodeErrs, fmt.Sprintf("raw reader: payload type %d on the channel of media %d", pkt.PayloadType, m))
-			rr.rd.mu.Unlock()
+			corrupt("after %d messages: payload type %d on the channel of media %d", n, pkt.PayloadType, m)
 			continue
 		}
 		rr.rd.record(m, pkt.PayloadType, &pkt)
 	}
+}
+
+func isClosed(err error) bool {
+	return errors.Is(err, net.ErrClosed) || errors.Is(err, io.EOF) || errors.Is(err, io.ErrUnexpectedEOF) ||
+		strings.Contains(err.Error(), "use of closed") || strings.Contains(err.Error(), "connection reset")
 }
 
 // sidePlay: a PLAY for an existing (UDP) session sent on another connection from the same address -
@@ -297,6 +400,12 @@ func (rd *reader) sidePlay() error {
 }
 
 func (rr *rawReader) close() {
+	rr.closing.Store(true)
+	if rr.kaStop != nil {
+		close(rr.kaStop)
+		<-rr.kaDone
+		rr.kaStop = nil
+	}
 	rr.p.nc.Close()
 	if rr.done != nil {
 		<-rr.done
